@@ -3,3 +3,4 @@ import OidcModel.Proofs.C02
 import OidcModel.Proofs.C04
 import OidcModel.Proofs.C07
 import OidcModel.Proofs.C12
+import OidcModel.Proofs.C11
